@@ -39,6 +39,10 @@ func (s *scen) name() string {
 	return fmt.Sprintf("%s hops0=%d max-redirect=%d max-retry=%d max-hops=%d domains-crawl=%s", s.Family, s.SeedHops, s.MaxRedirect, s.MaxRetry, s.MaxHops, s.DC)
 }
 
+// siteMarkers: substrings that switch on site-specific code (strings.Contains on the whole URL): the bounds and the
+// hop rules hold for a page whatever its URL looks like
+var siteMarkers = []string{"reddit.com/", "npr.org/", "tiktok.com/", "ina.fr/"}
+
 var numRe = regexp.MustCompile(`/(r|npl|nj|njr|njt)/(\d+)`)
 
 // dyn is the adversarial origin.
@@ -64,6 +68,11 @@ func dyn(u string, attempt int) (world.Resp, bool) {
 		case "nj": // JSON -> JSON -> ...
 			body := fmt.Sprintf(`{"next": "%s/nj/%d.json", "n": %d}`, H, n+1, n)
 			return world.Resp{Status: 200, Header: map[string]string{"Content-Type": "application/json"}, Body: body}, true
+		}
+	}
+	for _, m := range siteMarkers { // the hub again, under a path that carries a marker of a site-specific code path
+		if p == "/m/"+m+"hub" {
+			p = "/hub"
 		}
 	}
 	switch p {
@@ -287,6 +296,13 @@ func scenarios(tier string) []scen {
 						}
 					}
 				}
+			}
+		}
+	}
+	for _, m := range siteMarkers {
+		for _, mh := range []int{0, 1, 2} {
+			for _, h0 := range []int{0, 1, 2} {
+				out = append(out, scen{Family: "hub", Seed: H + "/m/" + m + "hub", SeedHops: h0, MaxRedirect: 1, MaxRetry: 0, MaxHops: mh, DC: "off"})
 			}
 		}
 	}
